@@ -1,7 +1,106 @@
+import BlockCiphers.Proofs.AesNi
+import BlockCiphers.Proofs.AesNiBytes
 import BlockCiphers.Gen.Decls
 /-
-C12 — encrypt-only, decrypt-only, converted and cloned instances agree.
+C12 — encrypt-only, decrypt-only, converted and cloned instances agree
+GENERATED statement file (tools/gen_thm.py): every theorem below restates, verbatim, a theorem of a Proofs/ module
+and is proved by applying it.  ONLY property theorems and non-vacuity examples live in Thm/.
+AES-NI model: Enc/Dec/combined, clones and conversions all compute the combined cipher's functions; union-arm discipline of the autodetect
+wrappers over the source.  Kuznyechik routes: by correspondence (14 routes x 3 backends) until its model is merged.
 -/
+
+namespace BC.AesNi
+open BC BC.X86 BC.Spec.Aes
+theorem C12.Enc.clone_eq (e : Enc) : e.clone = e :=
+  _root_.BC.AesNi.Enc.clone_eq e
+end BC.AesNi
+
+namespace BC.AesNi
+open BC BC.X86 BC.Spec.Aes
+theorem C12.Dec.clone_eq (d : Dec) : d.clone = d :=
+  _root_.BC.AesNi.Dec.clone_eq d
+end BC.AesNi
+
+namespace BC.AesNi
+open BC BC.X86 BC.Spec.Aes
+theorem C12.Combined.clone_eq (c : Combined) : c.clone = c :=
+  _root_.BC.AesNi.Combined.clone_eq c
+end BC.AesNi
+
+namespace BC.AesNi
+open BC BC.X86 BC.Spec.Aes
+/-- the encrypt-only type encrypts like the combined type, the decrypt-only type decrypts like it,
+whatever conversion produced them (`new`, `From<Enc>`, `From<&Enc>`, clones before or after) -/
+theorem C12.enc_only_eq128 (key b : BitVec 128) : (Enc.new128 key).encrypt_block b = encrypt128 key b :=
+  _root_.BC.AesNi.enc_only_eq128 key b
+end BC.AesNi
+
+namespace BC.AesNi
+open BC BC.X86 BC.Spec.Aes
+theorem C12.dec_only_eq128 (key b : BitVec 128) : (Dec.new128 key).decrypt_block b = decrypt128 key b :=
+  _root_.BC.AesNi.dec_only_eq128 key b
+end BC.AesNi
+
+namespace BC.AesNi
+open BC BC.X86 BC.Spec.Aes
+theorem C12.enc_only_eq192 (key : BitVec 192) (b : BitVec 128) : (Enc.new192 key).encrypt_block b = encrypt192 key b :=
+  _root_.BC.AesNi.enc_only_eq192 key b
+end BC.AesNi
+
+namespace BC.AesNi
+open BC BC.X86 BC.Spec.Aes
+theorem C12.dec_only_eq192 (key : BitVec 192) (b : BitVec 128) : (Dec.new192 key).decrypt_block b = decrypt192 key b :=
+  _root_.BC.AesNi.dec_only_eq192 key b
+end BC.AesNi
+
+namespace BC.AesNi
+open BC BC.X86 BC.Spec.Aes
+theorem C12.enc_only_eq256 (key : BitVec 256) (b : BitVec 128) : (Enc.new256 key).encrypt_block b = encrypt256 key b :=
+  _root_.BC.AesNi.enc_only_eq256 key b
+end BC.AesNi
+
+namespace BC.AesNi
+open BC BC.X86 BC.Spec.Aes
+theorem C12.dec_only_eq256 (key : BitVec 256) (b : BitVec 128) : (Dec.new256 key).decrypt_block b = decrypt256 key b :=
+  _root_.BC.AesNi.dec_only_eq256 key b
+end BC.AesNi
+
+namespace BC.AesNi
+open BC BC.X86 BC.Spec.Aes
+theorem C12.combined_from_enc_clone (e : Enc) : (Combined.fromEnc e).clone = Combined.fromEnc e.clone :=
+  _root_.BC.AesNi.combined_from_enc_clone e
+end BC.AesNi
+
+namespace BC.AesNi
+open BC BC.X86 BC.Spec.Aes
+theorem C12.dec_from_enc_clone (e : Enc) : (Dec.fromEnc e).clone = Dec.fromEnc e.clone :=
+  _root_.BC.AesNi.dec_from_enc_clone e
+end BC.AesNi
+
+namespace BC.AesNi
+open BC BC.X86 BC.Spec.Aes
+theorem C12.combined_dec_eq (e : Enc) : (Combined.fromEnc e).decrypt = Dec.fromEnc e :=
+  _root_.BC.AesNi.combined_dec_eq e
+end BC.AesNi
+
+namespace BC.AesNi
+open BC BC.X86 BC.Spec.Aes
+theorem C12.combined_enc_eq (e : Enc) : (Combined.fromEnc e).encrypt = e :=
+  _root_.BC.AesNi.combined_enc_eq e
+end BC.AesNi
+
+namespace BC.AesNi
+open BC BC.X86 BC.Spec.Aes
+open BC.Models.Aes
+/-- C12 at the registry level: the Enc-only and Dec-only instances of a key are the two halves of the
+combined instance (so they encrypt / decrypt exactly like it) -/
+theorem C12.newEnc_newDec_halves (f : Fam) (k : Bytes) :
+    newCombined f k = (newEnc f k).map (fun e => { encrypt := e, decrypt := Dec.fromEnc e }) ∧
+    newDec f k = (newCombined f k).map (·.decrypt) ∧
+    newEnc f k = (newCombined f k).map (·.encrypt) :=
+  _root_.BC.AesNi.newEnc_newDec_halves f k
+end BC.AesNi
+
 namespace BC.Thm.C12
 open BC.Gen
 
@@ -17,3 +116,4 @@ the inventory is not empty -/
 theorem arm_sites_present : 15 ≤ tokenBranches.length := by decide +kernel
 
 end BC.Thm.C12
+
